@@ -14,6 +14,46 @@ type Hasher[K comparable] struct {
 	ksize int
 	kstr  bool
 	kfunc func(K) string
+	// byte ranges [from, to) of a key that == ignores (struct padding, blank fields)
+	kpad [][2]uintptr
+}
+
+// paddingOf appends the byte ranges of a value of type t placed at offset base that do not
+// belong to any compared field.
+func paddingOf(t reflect.Type, base uintptr, pad [][2]uintptr) [][2]uintptr {
+	switch t.Kind() {
+	case reflect.Struct:
+		pos := uintptr(0)
+		for i := 0; i < t.NumField(); i++ {
+			f := t.Field(i)
+			if f.Offset > pos {
+				pad = append(pad, [2]uintptr{base + pos, base + f.Offset})
+			}
+			if f.Name == "_" {
+				pad = append(pad, [2]uintptr{base + f.Offset, base + f.Offset + f.Type.Size()})
+			} else {
+				pad = paddingOf(f.Type, base+f.Offset, pad)
+			}
+			if end := f.Offset + f.Type.Size(); end > pos {
+				pos = end
+			}
+		}
+		if pos < t.Size() {
+			pad = append(pad, [2]uintptr{base + pos, base + t.Size()})
+		}
+	case reflect.Array:
+		if t.Len() > 0 {
+			if first := paddingOf(t.Elem(), 0, nil); len(first) > 0 {
+				for i := 0; i < t.Len(); i++ {
+					off := base + uintptr(i)*t.Elem().Size()
+					for _, p := range first {
+						pad = append(pad, [2]uintptr{off + p[0], off + p[1]})
+					}
+				}
+			}
+		}
+	}
+	return pad
 }
 
 func NewHasher[K comparable](stringKeyFunc func(K) string) *Hasher[K] {
@@ -31,6 +71,11 @@ func NewHasher[K comparable](stringKeyFunc func(K) string) *Hasher[K] {
 	if !h.kstr && reflect.TypeOf(&k).Elem().Kind() == reflect.String {
 		h.kstr = true
 	}
+	// Padding bytes are not part of a key's value (== ignores them) but they are part of
+	// its memory: a struct passed in registers is spilled next to whatever the stack held.
+	if !h.kstr {
+		h.kpad = paddingOf(reflect.TypeOf(&k).Elem(), 0, nil)
+	}
 	return h
 }
 
@@ -41,6 +86,15 @@ func (h *Hasher[K]) Hash(key K) uint64 {
 	} else if h.kstr {
 		strKey = *(*string)(unsafe.Pointer(&key))
 	} else {
+		if len(h.kpad) > 0 {
+			// key is our own copy: clear the bytes that == does not look at
+			raw := unsafe.Slice((*byte)(unsafe.Pointer(&key)), h.ksize)
+			for _, p := range h.kpad {
+				for i := p[0]; i < p[1]; i++ {
+					raw[i] = 0
+				}
+			}
+		}
 		strKey = *(*string)(unsafe.Pointer(&struct {
 			data unsafe.Pointer
 			len  int
